@@ -670,3 +670,20 @@ def check_continuation(rec, prefix, H, HM, case, nodes, ctx='', k=0):
     # closure of runs / replay are C05's business (its listed finding applies to point extensions here)
     res &= check_stream(rec, prefix + '.stream', H, M2, ctx=c2, closure=False)
     return res
+
+
+def observe_schedule(case):
+    """Which calls of a history are followed by queries: 'every' call, every 'other' call, or only a
+    'sparse' third of them (the final state is always checked).  A pure function of the case.
+    Caches that go stale only when nobody looks in between need the sparse schedules; caches that go
+    stale right after a look need the dense one."""
+    n = sum(ord(c) for c in repr(case.get('ops'))) % 4
+    return ('every', 'every', 'other', 'sparse')[n]
+
+
+def due(schedule, i, last):
+    if i == last or schedule == 'every':
+        return True
+    if schedule == 'other':
+        return i % 2 == 1
+    return i % 3 == 2
